@@ -540,7 +540,7 @@ Qed.
 
 Definition two_first_calls : tid -> nat := fun t => if Nat.leb t 1 then 1 else 0.
 
-Lemma race_admits_two_owners : exists sched,
+Lemma race_two_owners : exists sched,
   let st := run guard_as_coded sched (init guard_as_coded two_first_calls) in
   In (EvOk 0) (log st) /\ In (EvOk 1) (log st).
 Proof. exists [0; 1; 0; 1]. vm_compute. split; [right; left | left]; reflexivity. Qed.
